@@ -94,4 +94,12 @@ PROPS = {
         "partial": ["C06_restart_timeline (history invariant on the PodRestarting condition across syncs) is not yet stated"],
         "assumptions": COMMON_ASSUME + ["pods carry status.startTime whenever a container is waiting (kubelet-consistent)"],
     },
+    "C10": {
+        "level_text": "Lean theorems about the model of CreatePodFromDaemonSetReplicaSet / ReplaceNodeNameNodeAffinity / compareCurrentPodWithNewPod (pinning, metadata, resource resolution, round trip create->compare, detection of template / annotation / setting-value changes) for every template, node, setting and both node-assignment modes; the real constructor and the real comparison run on rich templates (affinity terms with matchFields, tolerations, several containers), nodes with well-formed / malformed / foreign override annotations and settings, the created pod is compared field by field with the model's, and the comparison is re-run on single-field perturbations.",
+        "level_note": TB + "Modelled by hand: pod construction, affinity rewriting, the three-part comparison. MD5 hashes are opaque strings computed by the real functions in the harness (template hash; node override hash, whose defining property 'equal iff the (ns,eds)-prefixed sub-maps are equal' is checked by the node_hash stream); json.Unmarshal of override annotations and resource.Quantity comparison are done by the harness (quantities canonicalised to milli-values). Templates whose required node affinity has zero terms are rejected by the API server and excluded from the pinning clause.",
+        "streams": [("create_pod", 3000, 60000), ("node_hash", 1000, 20000), ("fitness", 1000, 20000)],
+        "extra_theorems": [("EdsProofs.FactsBridge", "facts_tolerations"), ("EdsProofs.FactsBridge", "facts_keys")],
+        "trusted_base": ["hand-written model of pod construction/comparison tied by the create_pod stream; MD5 collision freedom on the objects at hand"],
+        "assumptions": COMMON_ASSUME + ["container names are unique within a pod template and within a setting (API validation for pods; by convention for settings)"],
+    },
 }
